@@ -492,6 +492,26 @@ def c12seq (fn : String) (a : List String) : Option String := do
           else (if obs.startsWith "err" then "holds" else "FAILS"))
   | _, _ => none
 
+/-- a list field of a patched table sheet: PATCH_REPLACE and stated by the overlay → the overlay's elements; otherwise
+main's followed by the overlay's (`Model.Patch.patch` on a one-field message; stated directly here) -/
+def c13tblList (repl : Bool) (main over : List String) : List String :=
+  if repl && !over.isEmpty then over else main ++ over
+
+def c13tbl (fn : String) (a : List String) : Option String := do
+  let ids (s : String) : List String := if s.isEmpty then [] else s.splitOn "."
+  match fn, a with
+  | "c13.tbl", [rt, ri, mt, mi, ot, oi] =>
+    let t := ".".intercalate (c13tblList (rt == "1") (ids mt) (ids ot))
+    let i := ".".intercalate (c13tblList (ri == "1") (ids mi) (ids oi))
+    let r := s!"t:{t};i:{i}"
+    some s!"dry={r} load={r}"
+  | "o.c13.tbl", [rt, ri, mt, mi, ot, oi, obs] =>
+    let t := ".".intercalate (c13tblList (rt == "1") (ids mt) (ids ot))
+    let i := ".".intercalate (c13tblList (ri == "1") (ids mi) (ids oi))
+    let r := s!"t:{t};i:{i}"
+    some (if obs == s!"dry={r} load={r}" then "holds" else "FAILS")
+  | _, _ => none
+
 def imp (fn : String) (a : List String) : Option String := do
   match fn, a with
   | "imp.grid", [style, g] =>
@@ -523,6 +543,7 @@ def dispatch (line : String) : String :=
       if fn.startsWith "imp." || fn.startsWith "o.imp." then imp fn args
       else if fn.startsWith "c18.related" || fn.startsWith "o.c18.related" then c18rel fn args
       else if fn.startsWith "c12.seq" || fn.startsWith "o.c12.seq" then c12seq fn args
+      else if fn.startsWith "c13.tbl" || fn.startsWith "o.c13.tbl" then c13tbl fn args
       else if fn.startsWith "c14." || fn.startsWith "o.c14." then c14 fn args
       else if fn.startsWith "c07.corrupt" || fn.startsWith "o.c07.corrupt" || fn.startsWith "w.c07." || fn.startsWith "c07.skip" || fn.startsWith "o.c07.skip" then tp fn args
       else if fn.startsWith "c07.book" || fn.startsWith "o.c07.book" then c11 fn args
